@@ -71,7 +71,7 @@ def reduce_record(record, still_fails, budget=250):
                 cands.append(c)
             except Exception:
                 pass
-            if isinstance(cur, str) and len(cur) > 1:
+            if isinstance(cur, str) and len(cur) > 24:  # short strings are enum-like (alg names, forms): keep
                 for v in (cur[: len(cur) // 2], cur[len(cur) // 2:]):
                     c = copy.deepcopy(best)
                     _set(c, path, v)
